@@ -286,7 +286,8 @@ func (e *Env) RMapsAllocated() {
 var panicConfirmed = map[string]int{
 	"(*Decorator).DecorateNode": 2, "(*FileRestorer).RestoreFile": 3, "(*fileDecorator).resolvePath": 2, "(*FileRestorer).restoreIdent": 2,
 	"(*fileDecorator).decorateObject": 2, "(*FileRestorer).restoreObject": 2, "(*fileDecorator).link": 2, "(*FileRestorer).restoreNode": 2,
-	"mergeDecorations": 1, "mustUnquote": 2, "Clone": 1, "Walk": 1, "(*application).apply": 2, "Apply": 1, "(*Cursor).Replace": 1,
+	"mergeDecorations": 1, "mustUnquote": 2, "Clone": 1, "Walk": 1, "(*application).apply": 2, // (upper bounds: default arms of converter switches are classified structurally)
+	"Apply": 1, "(*Cursor).Replace": 1,
 	"(*Cursor).Delete": 1, "(*Cursor).InsertAfter": 1, "(*Cursor).InsertBefore": 1, "NewPackage": 1, "(*printer).printf": 1, "(*printer).print": 0,
 	"Fprint": 1, "fprint": 1,
 }
@@ -321,6 +322,19 @@ func (e *Env) RPanicInventory() {
 	}
 	n := 0
 	perFunc := map[string][]token.Pos{}
+	// the default arm of a converter's type switch is proven unreachable by R-COVER wherever that
+	// switch lives (in the function itself or in a helper it was moved to)
+	inCoveredDefault := func(p token.Pos) string {
+		for name, sib := range e.Sib.ByName {
+			for _, st := range sib.DefaultBody {
+				if st.Pos() <= p && p <= st.End() {
+					return name
+				}
+			}
+		}
+		return ""
+	}
+	nDefault := 0
 	for _, path := range []string{load.PkgDst, load.PkgDecorator, load.PkgDstutil, load.PkgGoast, load.PkgGotypes, load.PkgGuess, load.PkgSimple} {
 		pkg := e.Prog.Pkg(path)
 		for _, fd := range load.AllFuncDecls(pkg) {
@@ -340,6 +354,11 @@ func (e *Env) RPanicInventory() {
 					return true
 				}
 				n++
+				if sib := inCoveredDefault(call.Pos()); sib != "" {
+					nDefault++
+					e.Run.OK("R-NOPANIC", "panic in the default arm of the "+sib+" type switch", e.Prog.Pos(call.Pos()), "proven unreachable by R-COVER (every node type has a case)")
+					return true
+				}
 				perFunc[load.FuncName(fd)] = append(perFunc[load.FuncName(fd)], call.Pos())
 				return true
 			})
@@ -489,6 +508,48 @@ func (e *Env) RResolverFile() {
 					return true
 				})
 			}
+		}
+		return true
+	})
+	// or an indexed element of the list (binary search)
+	if listField == "" {
+		ast.Inspect(helper.Body, func(n ast.Node) bool {
+			r, ok := n.(*ast.ReturnStmt)
+			if !ok || len(r.Results) != 1 {
+				return true
+			}
+			if ix, ok := ast.Unparen(r.Results[0]).(*ast.IndexExpr); ok {
+				if se, ok := ast.Unparen(ix.X).(*ast.SelectorExpr); ok {
+					if v, ok := info.Uses[se.Sel].(*types.Var); ok && v.IsField() && v.Type().String() == "[]*go/ast.File" {
+						listField = v.Name()
+					}
+				}
+			}
+			return true
+		})
+	}
+	// boundary: an identifier may be the very last token of its file (id.End() == File.End()):
+	// a strict comparison between a file's End() and the identifier's End() excludes it
+	ast.Inspect(helper.Body, func(n ast.Node) bool {
+		be, ok := n.(*ast.BinaryExpr)
+		if !ok || (be.Op != token.LSS && be.Op != token.GTR) {
+			return true
+		}
+		isEndOf := func(x ast.Expr, typ string) bool {
+			call, ok := ast.Unparen(x).(*ast.CallExpr)
+			if !ok || len(call.Args) != 0 {
+				return false
+			}
+			se, ok := call.Fun.(*ast.SelectorExpr)
+			if !ok || se.Sel.Name != "End" {
+				return false
+			}
+			_, tn := namedOf(info.TypeOf(se.X))
+			return tn == typ
+		}
+		if (isEndOf(be.X, "File") && isEndOf(be.Y, "Ident")) || (isEndOf(be.X, "Ident") && isEndOf(be.Y, "File")) {
+			e.Run.Violation("R-NOPANIC", "the file of an identifier is found also when the identifier is the last token of the file", e.Prog.Pos(be.Pos()),
+				"`"+c.ExprStr(be)+"` is strict: an identifier that ends its file (a final `var x T` or `type T int`) has End() equal to the file's End(), no file is found and the resolver is handed a nil file (goast dereferences it)")
 		}
 		return true
 	})
